@@ -1,13 +1,14 @@
 #!/bin/bash
+ROOT=${MUT_ROOT:-/repo}; export MC_REPO=$ROOT; export MC_EVIDENCE_DIR=/tmp/mc_evidence_scratch; mkdir -p $MC_EVIDENCE_DIR
 # tools/mutant.sh <patch> <ID> [<ID>...]   apply a patch to /repo, run pinned tests + checks, revert.
 # env: SKIP_TESTS=1 to skip the pinned suite, TIER=quick|thorough
 patch="$(readlink -f "$1")"; shift
-cd /repo || exit 2
+cd $ROOT || exit 2
 if ! git diff --quiet; then echo "/repo dirty"; exit 2; fi
 git apply "$patch" || { echo "patch does not apply"; exit 2; }
-trap 'cd /repo && git checkout -- . ' EXIT
+trap 'cd $ROOT && git checkout -- . ' EXIT
 if [ -z "$SKIP_TESTS" ]; then
-  /venv/bin/python -m pytest -q -p no:cacheprovider -x 2>&1 | tail -1
+  PYTHONPATH=$ROOT /venv/bin/python -m pytest -q -p no:cacheprovider -x 2>&1 | tail -1
 fi
 cd /verif
 for id in "$@"; do
